@@ -851,6 +851,9 @@ def random_value(node, rng, cfg, ctx=None, f=None, nonzero=False, maxlen=4):
     if k == "void":
         return None
     if k == "enum":
+        if f is not None and f.get("len_src") and not f.get("bits"):
+            small = [m[1] for m in node["members"] if 0 <= m[1] <= 4] + [0, 1, 2, 3]
+            return rng.choice(small)
         v = enum_value(rng, node)
         if nonzero and v == 0:
             v = node["members"][-1][1] or 1
